@@ -1,7 +1,7 @@
 """C17 - class diagrams mirror the Python classes and derived views leave them intact (ClassModel.tla)."""
 from harness.core import Ctx, replay, MachineryError
 
-OPS = ["subdiagram", "subdiagram_named", "associations", "out_edges", "assoc_cond", "role_taker"]
+OPS = ["subdiagram", "subdiagram_named", "associations", "out_edges", "assoc_cond", "role_taker", "sub_query_first", "orig_query_first"]
 
 
 def main():
@@ -10,7 +10,8 @@ def main():
     ctx.rule = ("TLC samples models of ClassModel.tla by seed: three dataclasses with optional single / two-level inheritance and up "
                 "to 2 fields each over 17 field kinds (builtins, Optional, enum, datetime, list of builtins, bare / Optional / "
                 "List / Set / Sequence / Type references to each class of the model, private fields, references to outside "
-                "classes), all annotations as forward references, with the expected diagram (nodes, direct-base inheritance "
+                "classes), annotations as forward references (modules with the __future__ import, split modules with TYPE_CHECKING imports, and modules "
+                "without the __future__ import whose wrappers contain string forward references), with the expected diagram (nodes, direct-base inheritance "
                 "edges, association edges incl. inherited fields) and the classification each annotation dictates. Each model is "
                 "synthesised as a module, ClassDiagram is built in one of the 6 class orders and in another one, every field's "
                 "predicates are read, and a sequence of 3 read-only operations is applied with a snapshot before/after. "
@@ -22,7 +23,9 @@ def main():
     cases = []
     for i, m in enumerate(models):
         ops = [OPS[(i + k * 5) % len(OPS)] for k in range(3)]
-        cases.append({"mode": "diagram", "m": m, "order": i % 6, "ops": ops, "split": i % 2 == 1})
+        if i % 4 == 3:
+            ops[0] = OPS[6 + (i // 4) % 2]       # the derived view / the original queried first, before anything else was asked
+        cases.append({"mode": "diagram", "m": m, "order": i % 6, "ops": ops, "split": (False, True, "nofuture")[i % 3]})
     results = replay("classmodel", cases)
     ctx.replayed = len(cases)
     for c, r in zip(cases, results):
@@ -60,6 +63,12 @@ def main():
             for op in r["ops"]:
                 if isinstance(op[1], str) and "Error" in op[1]:
                     problems.append(f"operation {op[0]} raised {op[1]}")
+                elif op[0] in ("sub_query_first", "orig_query_first"):
+                    q = op[1]
+                    if q["orig_asked"] != q["orig_edges"]:
+                        problems.append(f"{op[0]}: asking the diagram class by class gives {q['orig_asked']}, its edge list says {q['orig_edges']}")
+                    if q["sub_asked"] != q["sub_edges"]:
+                        problems.append(f"{op[0]}: asking the derived diagram class by class gives {q['sub_asked']}, its edge list says {q['sub_edges']}")
                 elif op[0] in ("subdiagram", "subdiagram_named") and not m["parallel"]:
                     want = sorted(map(list, m["sub" if op[0] == "subdiagram" else "sub_named"]))
                     if op[1] != want:
